@@ -35,12 +35,11 @@ Print Assumptions C04_partial_size.
    formats: from the tokens of the printed elements "e1 ... en >" the parser
    builds exactly the item that was printed — every stored value is read back,
    every variable is kept under its name — and reports nothing *)
-Theorem C04_leaf_tokens : forall floats k w xs st rab rest,
-  k <> KFloat -> fmt_ok k w ->
-  Forall (slot_built k w) xs -> size_ok (size_typ k w) (length xs) = true -> width_okb k w = true ->
+Theorem C04_leaf_tokens : forall floats fl k w xs st rab rest,
+  fmt_ok k w -> Forall (slot_built k w) xs -> Forall (slot_scans floats fl k w) xs -> size_ok (size_typ k w) (length xs) = true -> width_okb k w = true ->
   forallb (val_okb k w) xs = true -> names_ok xs = true ->
   (forall n, In n (slot_vars xs) -> known_name st n = false) ->
-  toks st = map (slot_token k) xs ++ rab :: rest -> t_typ rab = TRAB ->
+  toks st = map (slot_token fl k w) xs ++ rab :: rest -> t_typ rab = TRAB ->
   exists st', parse_numeric floats (nk_of k w) st = (IOk (ILeaf k w xs), st') /\
               toks st' = rab :: rest /\ errs st' = errs st /\ warns st' = warns st /\ msgs st' = msgs st /\ names_char st st' (slot_vars xs).
 Proof. exact leaf_parses_back. Qed.
@@ -48,28 +47,31 @@ Print Assumptions C04_leaf_tokens.
 
 (* the whole printed value item "<TYPE[n] e1 ... en>": '<', the type name, the
    size declaration (which the item meets), the elements, '>' *)
-Theorem C04_leaf_item : forall floats rec_list k w xs st rest,
-  k <> KFloat -> fmt_ok k w ->
-  Forall (slot_built k w) xs -> size_ok (size_typ k w) (length xs) = true -> width_okb k w = true ->
+Theorem C04_leaf_item : forall floats fl rec_list k w xs st rest,
+  fmt_ok k w -> Forall (slot_built k w) xs -> Forall (slot_scans floats fl k w) xs -> size_ok (size_typ k w) (length xs) = true -> width_okb k w = true ->
   forallb (val_okb k w) xs = true -> names_ok xs = true ->
   (forall n, In n (slot_vars xs) -> known_name st n = false) ->
-  toks st = leaf_tokens k w xs ++ rest ->
+  toks st = leaf_tokens fl k w xs ++ rest ->
   exists st', parse_item_body floats rec_list st = (Some (ILeaf k w xs), st') /\
               toks st' = rest /\ errs st' = errs st /\ warns st' = warns st /\ msgs st' = msgs st /\ names_char st st' (slot_vars xs).
 Proof. exact leaf_item_parses_back. Qed.
 Print Assumptions C04_leaf_item.
 
-(* whole item trees made of lists, plain list variables, integer / unsigned /
-   binary / boolean value items, ASCII items (any characters: printable runs in
-   quotes, the others as 0xNN) and ASCII variables with their length
-   constraints, of any size and nesting: from the tokens of
+(* whole item trees made of lists, list variables — named ones and ellipses
+   (printed as "...", numbered by the parser from its per-message counter:
+   `canon e` says the tree's ellipsis names are "...[e]", "...[e+1]", ... in
+   order of occurrence) — value items of every format, ASCII items (any
+   characters: printable runs in quotes, the others as 0xNN) and ASCII variables
+   with their length constraints, of any size and nesting: from the tokens of
    the printed form the parser rebuilds the same tree, reports nothing,
-   consumes exactly those tokens and records exactly the tree's variables *)
-Theorem C04_item_tokens : forall floats t st rest,
-  printable t -> (forall n, In n (vars t) -> known_name st n = false) ->
-  toks st = item_tokens t ++ rest ->
+   consumes exactly those tokens, records exactly the tree's named variables
+   and advances its ellipsis counter by the number of ellipses *)
+Theorem C04_item_tokens : forall floats fl t st rest,
+  printable t -> scans floats fl t -> (forall n, In n (vars t) -> known_name st n = false) -> canon (ecount st) (vars t) ->
+  toks st = item_tokens fl t ++ rest ->
   exists st', parse_item floats (S (length (toks st))) st = (Some t, st') /\ toks st' = rest /\
-              errs st' = errs st /\ warns st' = warns st /\ msgs st' = msgs st /\ names_char st st' (vars t).
+              errs st' = errs st /\ warns st' = warns st /\ msgs st' = msgs st /\ names_char st st' (named (vars t)) /\
+              ecount st' = ecount st + Z.of_nat (length (ells (vars t))).
 Proof. exact item_parses_back. Qed.
 Print Assumptions C04_item_tokens.
 
@@ -79,10 +81,10 @@ Print Assumptions C04_item_tokens.
    exactly the tree that was printed, reporting nothing and consuming exactly
    those tokens.  Printer model, lexer model and parser model composed. *)
 Theorem C04_print_lex_parse : forall alnum floats fl level t rest off,
-  printable t -> lexable t ->
+  printable t -> scans floats fl t -> lexable alnum fl t ->
   exists ts, lexes alnum LText (render fl (print_item_at level t) ++ rest) off ts LText rest
                (off + zlen (render fl (print_item_at level t))) /\
-    forall st more, toks st = ts ++ more -> (forall n, In n (vars t) -> known_name st n = false) ->
+    forall st more, toks st = ts ++ more -> (forall n, In n (vars t) -> known_name st n = false) -> canon (ecount st) (vars t) ->
       exists st', parse_item floats (S (length (toks st))) st = (Some t, st') /\ toks st' = more /\ errs st' = errs st.
 Proof. exact print_lex_parse_item. Qed.
 Print Assumptions C04_print_lex_parse.
@@ -90,26 +92,61 @@ Print Assumptions C04_print_lex_parse.
 (* the hypotheses hold of a nested tree with values and variables, whose printed text is pinned too *)
 Example C04_premises :
   let t := IList [ILeaf KUint 1 [SV 1; SX (B"x"%string)]; IVar (B"v"%string); IList [ILeaf KBool 1 [SV 1; SV 0]; ILeaf KInt 2 [SV (-7)]]] in
-  printable t /\ lexable t.
-Proof. destruct print_lex_parse_example as (H1 & H2 & _). split; assumption. Qed.
+  printable t /\ forall alnum floats fl, scans floats fl t /\ lexable alnum fl t.
+Proof.
+  intro t. split; [exact (proj1 (proj1 print_lex_parse_example [] (fun _ _ => [])))|].
+  intros alnum floats fl. split; [|exact (proj2 (proj1 print_lex_parse_example alnum fl))].
+  cbn [scans t]. repeat split; repeat constructor; try reflexivity; try discriminate.
+Qed.
+
+(* the float hypotheses are satisfiable too: oracles answering "1.5" for the
+   float64 bit pattern of 1.5, an F8 item holding it *)
+Example C04_float_premises :
+  let v := 4609434218613702656 in
+  let fl := fun (_ : nat) (_ : Z) => B"1.5"%string in
+  let floats := [(B"1.5"%string, (0, 1069547520, 0, v))] in
+  let t := ILeaf KFloat 8 [SV v] in
+  printable t /\ scans floats fl t /\ forall alnum, lexable alnum fl t.
+Proof. exact float_premises. Qed.
 
 (* END TO END: sml.Parse of the printed form of any sequence of messages — any
    stream/function code, wait bit, direction, a name the header lexer reads as
-   one name, an item tree as above or none — returns exactly those messages,
+   one name, an item tree as above (named variables, ellipses numbered from 0
+   in each message, every item format) or none — returns exactly those messages,
    no error, no warning: printer, lexer and parser models composed, for every
    size, nesting and value *)
-Theorem C04_print_parse : forall alnum floats fl ms, Forall (msg_good alnum) ms ->
+Theorem C04_print_parse : forall alnum floats fl ms, Forall (msg_good alnum floats fl) ms ->
   let r := sml_parse alnum floats (msgs_text fl ms) in
   r_msgs r = ms /\ r_errs r = [] /\ r_warns r = [] /\ r_crashed r = false.
 Proof. exact print_parse_messages. Qed.
 Print Assumptions C04_print_parse.
 
+(* the hypotheses of C04_print_parse hold of two messages, one of them with a
+   nested item that has named variables, two ellipses, a quoted text with a
+   quote and a line feed in it, an ASCII variable and an empty ASCII item *)
+Example C04_print_parse_premises :
+  let m1 := {| m_name := B"Report"%string; m_stream := 6; m_function := 11; m_wbit := 1; m_dir := B"H<-E"%string;
+               m_item := IList [ILeaf KUint 4 [SX (B"dataid"%string); SV 7]; IVar (B"v"%string);
+                                IList [ILeaf KBin 1 [SV 255]; ILeaf KBool 1 [SV 1]; IAscii (B"say " ++ [x22] ++ B"hi" ++ [x22; x0a])%string; IAsciiVar (B"txt"%string) 1 10; IAscii []; IVar (B"...[0]"%string)];
+                                IVar (B"...[1]"%string)];
+               m_sid := -1; m_sys := [x00; x00; x00; x00] |} in
+  let m2 := {| m_name := []; m_stream := 1; m_function := 2; m_wbit := 0; m_dir := B"H<->E"%string;
+               m_item := IEmpty; m_sid := -1; m_sys := [x00; x00; x00; x00] |} in
+  forall alnum floats fl, Forall (msg_good alnum floats fl) [m1; m2].
+Proof. exact print_parse_example. Qed.
+
 (* the text is what the message printer prints: one message per entry, a line feed after each *)
 Theorem C04_text : forall fl ms, msgs_text fl ms = flat_map (fun m => render fl (msg_print m) ++ [x0a]) ms.
 Proof. reflexivity. Qed.
 
-(* C04_remaining: float items (their text is an oracle) and ellipses at the
-   token and character levels, and the converse direction (fixed
-   point of every accepted text) are not proved; they are decided on the library by the monitors of suite C04 (print
+(* Float items are covered under two explicit hypotheses about the two oracles
+   (strconv.FormatFloat = fl, strconv.ParseFloat = floats), both part of
+   msg_good: [scans] — ParseFloat of the printed text gives the value back, at
+   the item's width — and [lexable]'s float_lexes — the printed text is lexed as
+   one number token.  Both oracles are recorded from the library on every run
+   and the two hypotheses are monitored on every float the suites print.
+
+   C04_remaining: the converse direction (fixed
+   point of every accepted text) is not proved; it is decided on the library by the monitors of suite C04 (print
    -> parse -> compare, and the fixed point of every accepted text) and by the
    correspondence of printer, lexer and parser with the model. *)
